@@ -450,6 +450,8 @@ def pgScanGate (last : Option Nat) (tick : Nat) : Option Nat × Bool :=
 
 structure RestartCfg where
   dry : Bool
+  /-- `post_action_delay` in seconds (default: `Generated.restartDefPostActionDelay`) -/
+  delay : Nat := Generated.restartDefPostActionDelay
 deriving Repr
 
 /-- `SystemdRestart::run` (with fix C04-restart-dry-counter: the counter only moves for a real restart).
@@ -458,5 +460,10 @@ def runRestart (cfg : RestartCfg) (dbusRc : Nat) : List Ev × Ret :=
   if cfg.dry then ([.kmsgRestart true], .stop)
   else if dbusRc = 0 then ([.dbus true dbusRc, .kmsgRestart false, .statRestarts], .stop)
   else ([.dbus true dbusRc], .cont)
+
+/-- seconds `SystemdRestart::run` sleeps before it returns: `post_action_delay` after a restart (real or dry) - this plugin
+    holds its ruleset off by blocking, not through `pause_actions` - and nothing after a failed one -/
+def restartSleep (cfg : RestartCfg) (dbusRc : Nat) : Nat :=
+  if cfg.dry || dbusRc = 0 then cfg.delay else 0
 
 end OomdModel.Kill
